@@ -550,10 +550,12 @@ Proof. intros; rewrite cnl_cons; destruct (chr_is c "010"); lia. Qed.
 Lemma cnl_nil : cnl [] = 0.
 Proof. reflexivity. Qed.
 
-(* what one scanning step may do: the token carries the line the scanner is on afterwards, the line
-   only grows, and it grows by at most the number of newline characters consumed *)
+(* what one scanning step may do: the token carries a line between the one the scanner was on and the one it is
+   on afterwards (the same, except for the two error exits of `string` that count a consumed line break AFTER
+   the token was built, /repo e81033c), the line only grows, and it grows by at most the number of newline
+   characters consumed *)
 Definition good (line : N) (cs : list chr) (t : token) (st' : sstate) : Prop :=
-  tline t = s_line st' /\ line <= s_line st' /\ s_line st' + cnl (s_rest st') <= line + cnl cs.
+  (line <= tline t <= s_line st') /\ s_line st' + cnl (s_rest st') <= line + cnl cs.
 
 Lemma skip_ws_good : forall cs b pos line,
   let '(cs', _, line') := skip_ws b cs pos line in
@@ -640,7 +642,7 @@ Proof.
       destruct (chr_is c "$") eqn:Ed.
       { destruct r as [|c2 r2]; [fin_good|].
         pose proof (cnl_cons_le c2 r2) as Hc2.
-        destruct (negb (chr_is c2 "{")); [fin_good|].
+        destruct (negb (chr_is c2 "{")); [pose proof (cnl_cons c2 r2) as Hc2'; destruct (chr_is c2 "010"); fin_good|].
         destruct (Nat.leb INTERPOLATION_DEPTH_MAX (List.length parens)); fin_good. }
       destruct (chr_is c "\") eqn:Eb.
       { destruct r as [|c2 r2]; [fin_good|].
@@ -657,7 +659,7 @@ Proof.
           - specialize (IH (1 + k)%nat buf (Some msg) (pos + 1)%nat line parens).
             destruct (string_loop (c2 :: r2) (1 + k) buf (Some msg) (pos + 1) line parens) as [t st'].
             fin_good. }
-        fin_good. }
+        pose proof (cnl_cons c2 r2) as Hc2'. destruct (chr_is c2 "010"); fin_good. }
       destruct (chr_is c "010") eqn:En.
       { assert (Hc' : cnl (c :: r) = 1 + cnl r) by (rewrite cnl_cons, En; reflexivity).
         specialize (IH 0%nat ("010"%byte :: buf) err (pos + 1)%nat (line + 1) parens).
@@ -710,7 +712,7 @@ Proof.
   induction fuel as [|f IH]; intros st t Hin; [contradiction|].
   cbn [scan_loop] in Hin.
   pose proof (scan_token_good st) as G. destruct (scan_token st) as [t0 st']. cbn [fst snd] in G.
-  destruct G as [G1 [G2 G3]].
+  destruct G as [[G1 G2] G3].
   assert (H0 : s_line st <= tline t0 <= s_line st + cnl (s_rest st)) by lia.
   destruct (tk t0); cbn [In] in Hin;
     (destruct Hin as [<- | Hin]; [exact H0 | try contradiction; specialize (IH _ _ Hin); lia]).
